@@ -135,3 +135,33 @@ func ZZH_C01_service_cache() {
 			cs.Type == led.Type && zzSamePermits(cs.Permission, led.Permission))
 	}
 }
+
+// ZZH_C01_verify_sign: the signature pre-check of a block (one goroutine per transaction) marks
+// exactly the transactions whose signature is bad and that were not verified locally before,
+// under both goroutine schedules the engine explores (children run at once / after the loop).
+// zz:also C08
+func ZZH_C01_verify_sign() {
+	exec := zzNewExec(1, big.NewInt(0))
+	n := 2 + zz.Choice("ntx", 2)
+	var txs []pb.Transaction
+	var local []bool
+	bad := make([]bool, n)
+	nLocal := zz.Choice("localListLen", n+1) // the local list may be shorter than the block
+	for i := 0; i < n; i++ {
+		bad[i] = zz.Choice("badSig", 2) == 1
+		txs = append(txs, &zzSigTx{BxhTransaction: *zzTransferTx(zzUsers[0], zzUsers[1], uint64(i), i, "1"), bad: bad[i]})
+		if i < nLocal {
+			local = append(local, zz.Choice("local", 2) == 1)
+		}
+	}
+	zz.Schedule(zz.Choice("schedule", 2))
+	ev := &pb.CommitEvent{Block: &pb.Block{BlockHeader: &pb.BlockHeader{Number: 2}, Transactions: &pb.Transactions{Transactions: txs}}, LocalList: local}
+	bw := exec.verifySign(ev)
+	zz.Schedule(0)
+	for i := 0; i < n; i++ {
+		_, marked := bw.invalidTx[i]
+		want := bad[i] && !(i < nLocal && local[i])
+		zz.Assert("C01.verify-sign.marks-exactly-the-bad", marked == want)
+	}
+	zz.Assert("C01.verify-sign.no-extra", len(bw.invalidTx) <= n)
+}
